@@ -371,8 +371,8 @@ fault of any kind, no fuel exhaustion — and its final state carries the verdic
 of every group of `Spec.attempt`.
 
 Full statement aimed at (`compile_correct`, NOT proved): the same for every tree `syntax.Parse` can produce, i.e.
-`InFrag 8` extended by balancing groups, both directions.  Proved: the tiers 1–6 below (left to right; general loops,
-`UpdateBumpalong`, backreferences and conditionals included; no lookbehind / RightToLeft). -/
+`InFrag 8` extended by balancing groups, both directions.  Proved: the tiers 1–7 below (general loops, `UpdateBumpalong`,
+backreferences, conditionals, lookbehind and RightToLeft included; not yet: right-to-left single-character loops). -/
 section compiler
 open RegexVerif.Compile RegexVerif.Writer RegexVerif.Generated.Opcodes
 
@@ -395,7 +395,8 @@ theorem compile_correct_T3 (ti : TreeInfo) (t : GoNode) (TPx : TP) (env : VM.Env
     (hrel : EnvRel TPx (codeFromTree (mainCfg ti) t).2.sets env se) (hi : i ≤ se.n) (hlen : se.n ≤ 2147483647) :
     ∃ s0 s n, VM.init (emit ti t) (i : Int) = .ok s0 ∧
       (∀ fuel, n ≤ fuel → (VM.run (emit ti t) env fuel s0).1 = .done s) ∧ Agrees ti se pat i s :=
-  compile_correct_upto 3 (by decide) ti t TPx env se pat i hfrag hwf hpat hrel hi hlen (by omega) (by omega)
+  compile_correct_upto 3 (by decide) ti t TPx env se pat i hfrag hwf (by rw [inFrag_ltr (by decide) hfrag]; exact hpat) hrel hi hlen
+    (by omega) (by omega)
 
 /-- tier 2 (no Atomic, no lookaround): a special case of tier 3 -/
 theorem compile_correct_T2 (ti : TreeInfo) (t : GoNode) (TPx : TP) (env : VM.Env) (se : Spec.Env) (pat : Pat) (i : Nat)
@@ -435,21 +436,24 @@ theorem run_done_unique (p : Code.Prog) (env : VM.Env) (s0 s s' : VM.VMState) (f
     first such one.  (The engine's `scan` is this naive scan up to the accelerations of C03.) -/
 theorem compile_correct_find_upto (k : Nat) (hk : k ≤ maxTier) (ti : TreeInfo) (t : GoNode) (TPx : TP) (env : VM.Env)
     (se : Spec.Env) (pat : Pat)
-    (start : Nat) (hfrag : InFrag k TPx ti t = true) (hwf : treeWf ti t = true)
-    (hpat : toPatRoot TPx false t = some pat) (hrel : EnvRel TPx (codeFromTree (mainCfg ti) t).2.sets env se)
+    (start : Nat) (hstart : start ≤ se.n) (hfrag : InFrag k TPx ti t = true) (hwf : treeWf ti t = true)
+    (hpat : toPatRoot TPx ti.rtl t = some pat) (hrel : EnvRel TPx (codeFromTree (mainCfg ti) t).2.sets env se)
     (hlen : se.n ≤ 2147483647) (hlenS : 4 ≤ k → se.n < 2147483647) (hecma : 6 ≤ k → env.ecma = false) (st : St) :
-    Spec.find se pat false start = some st ↔
-      ∃ (before : List Nat) (i : Nat) (after : List Nat), scanOrder false start se.n = before ++ i :: after ∧
+    Spec.find se pat ti.rtl start = some st ↔
+      ∃ (before : List Nat) (i : Nat) (after : List Nat), scanOrder ti.rtl start se.n = before ++ i :: after ∧
         (∃ s0 s n, VM.init (emit ti t) (i : Int) = .ok s0 ∧
           (∀ fuel, n ≤ fuel → (VM.run (emit ti t) env fuel s0).1 = .done s) ∧ VM.matched s = true ∧
           s.textpos = (st.pos : Int) ∧ CapRep (slotOf ti) (capsize ti) s.cap st.caps ∧
-          Spec.attempt se pat false i = some st) ∧
+          Spec.attempt se pat ti.rtl i = some st) ∧
         ∀ j ∈ before, ∃ s0 s n, VM.init (emit ti t) (j : Int) = .ok s0 ∧
           (∀ fuel, n ≤ fuel → (VM.run (emit ti t) env fuel s0).1 = .done s) ∧ VM.matched s = false := by
   have hatt := fun j (hj : j ≤ se.n) =>
     compile_correct_upto k hk ti t TPx env se pat j hfrag hwf hpat hrel hj hlen hlenS hecma
   rw [find_eq_some_iff]
-  have hpos : ∀ j ∈ scanOrder false start se.n, j ≤ se.n := fun j hj => ((mem_scanOrder_ltr start se.n j).mp hj).2
+  have hpos : ∀ j ∈ scanOrder ti.rtl start se.n, j ≤ se.n := fun j hj => by
+    cases hr : ti.rtl with
+    | false => rw [hr] at hj; exact ((mem_scanOrder_ltr start se.n j).mp hj).2
+    | true => rw [hr] at hj; have := (mem_scanOrder_rtl start se.n j).mp hj; omega
   constructor
   · rintro ⟨before, i, after, hso, hat, hbef⟩
     refine ⟨before, i, after, hso, ?_, ?_⟩
@@ -468,11 +472,11 @@ theorem compile_correct_find_upto (k : Nat) (hk : k ≤ maxTier) (ti : TreeInfo)
     have hss : s = s' := run_done_unique _ env s0 s s' _ _ (h2 (max n n') (by omega)) (h2' (max n n') (by omega))
     subst hss
     rw [hag.verdict] at hm
-    cases hatt' : Spec.attempt se pat false j with
+    cases hatt' : Spec.attempt se pat ti.rtl j with
     | none => rfl
     | some x => rw [hatt'] at hm; simp at hm
 
-/-- the scan on the fragment of tier 3 (texts up to `MaxInt32` runes) -/
+/-- the scan on the fragment of tier 3 (left to right, texts up to `MaxInt32` runes) -/
 theorem compile_correct_find_T3 (ti : TreeInfo) (t : GoNode) (TPx : TP) (env : VM.Env) (se : Spec.Env) (pat : Pat)
     (start : Nat) (hfrag : InFrag 3 TPx ti t = true) (hwf : treeWf ti t = true)
     (hpat : toPatRoot TPx false t = some pat) (hrel : EnvRel TPx (codeFromTree (mainCfg ti) t).2.sets env se)
@@ -484,8 +488,25 @@ theorem compile_correct_find_T3 (ti : TreeInfo) (t : GoNode) (TPx : TP) (env : V
           s.textpos = (st.pos : Int) ∧ CapRep (slotOf ti) (capsize ti) s.cap st.caps ∧
           Spec.attempt se pat false i = some st) ∧
         ∀ j ∈ before, ∃ s0 s n, VM.init (emit ti t) (j : Int) = .ok s0 ∧
-          (∀ fuel, n ≤ fuel → (VM.run (emit ti t) env fuel s0).1 = .done s) ∧ VM.matched s = false :=
-  compile_correct_find_upto 3 (by decide) ti t TPx env se pat start hfrag hwf hpat hrel hlen (by omega) (by omega) st
+          (∀ fuel, n ≤ fuel → (VM.run (emit ti t) env fuel s0).1 = .done s) ∧ VM.matched s = false := by
+  have hr := inFrag_ltr (by decide) hfrag
+  by_cases hstart : start ≤ se.n
+  · have := compile_correct_find_upto 3 (by decide) ti t TPx env se pat start hstart hfrag hwf (by rw [hr]; exact hpat) hrel hlen
+      (by omega) (by omega) st
+    rw [hr] at this
+    exact this
+  · -- beyond the end of the text there is no position to try
+    have hso : scanOrder false start se.n = [] := by
+      simp only [scanOrder, Bool.false_eq_true, if_false]
+      exact List.drop_eq_nil_of_le (by simp; omega)
+    constructor
+    · intro h
+      rw [find_eq_some_iff, hso] at h
+      obtain ⟨before, i', after, h', _⟩ := h
+      simp at h'
+    · rintro ⟨before, i', after, h', _⟩
+      rw [hso] at h'
+      simp at h'
 
 /-- **`compile_correct_T4a`** — tier 4 = tier 3 + the general loops `Loop` / `Lazyloop` around ANY body of the fragment
     (`Setmark|Nullmark … Branchmark|Lazybranchmark`; counted: `Setcount|Nullcount … Branchcount|Lazybranchcount`, all
@@ -498,7 +519,8 @@ theorem compile_correct_T4a (ti : TreeInfo) (t : GoNode) (TPx : TP) (env : VM.En
     (hrel : EnvRel TPx (codeFromTree (mainCfg ti) t).2.sets env se) (hi : i ≤ se.n) (hlen : se.n < 2147483647) :
     ∃ s0 s n, VM.init (emit ti t) (i : Int) = .ok s0 ∧
       (∀ fuel, n ≤ fuel → (VM.run (emit ti t) env fuel s0).1 = .done s) ∧ Agrees ti se pat i s :=
-  compile_correct_upto 4 (by decide) ti t TPx env se pat i hfrag hwf hpat hrel hi (by omega) (fun _ => hlen) (by omega)
+  compile_correct_upto 4 (by decide) ti t TPx env se pat i hfrag hwf (by rw [inFrag_ltr (by decide) hfrag]; exact hpat) hrel hi
+    (by omega) (fun _ => hlen) (by omega)
 
 /-- **`compile_correct_T4b`** — tier 5 = tier 4 + `UpdateBumpalong` (the node the parser puts behind a leading `.*`-like
     loop; its instruction raises the BOTTOM slot of the backtracking stack — the text position the `Lazybranch` at
@@ -512,7 +534,8 @@ theorem compile_correct_T4b (ti : TreeInfo) (t : GoNode) (TPx : TP) (env : VM.En
     (hrel : EnvRel TPx (codeFromTree (mainCfg ti) t).2.sets env se) (hi : i ≤ se.n) (hlen : se.n < 2147483647) :
     ∃ s0 s n, VM.init (emit ti t) (i : Int) = .ok s0 ∧
       (∀ fuel, n ≤ fuel → (VM.run (emit ti t) env fuel s0).1 = .done s) ∧ Agrees ti se pat i s :=
-  compile_correct_upto 5 (by decide) ti t TPx env se pat i hfrag hwf hpat hrel hi (by omega) (fun _ => hlen) (by omega)
+  compile_correct_upto 5 (by decide) ti t TPx env se pat i hfrag hwf (by rw [inFrag_ltr (by decide) hfrag]; exact hpat) hrel hi
+    (by omega) (fun _ => hlen) (by omega)
 
 /-- **`compile_correct_T4c`** — tier 6 = tier 5 + backreferences and conditionals: `Ref` (case-sensitive: `refmatch`
     against `Spec.refMatch` on the LAST capture of the group, read from the capture arrays through `CapRep`),
@@ -529,7 +552,25 @@ theorem compile_correct_T4c (ti : TreeInfo) (t : GoNode) (TPx : TP) (env : VM.En
     (henv : env.ecma = false) :
     ∃ s0 s n, VM.init (emit ti t) (i : Int) = .ok s0 ∧
       (∀ fuel, n ≤ fuel → (VM.run (emit ti t) env fuel s0).1 = .done s) ∧ Agrees ti se pat i s :=
-  compile_correct_upto 6 (by decide) ti t TPx env se pat i hfrag hwf hpat hrel hi (by omega) (fun _ => hlen) (fun _ => henv)
+  compile_correct_upto 6 (by decide) ti t TPx env se pat i hfrag hwf (by rw [inFrag_ltr (by decide) hfrag]; exact hpat) hrel hi
+    (by omega) (fun _ => hlen) (fun _ => henv)
+
+/-- **`compile_correct_T4d`** — tier 7 = tier 6 + right to left: lookbehind `(?<=…)`, `(?<!…)` (a lookaround whose body's
+    leaves carry the RightToLeft bit) and whole patterns compiled with the option RightToLeft.  The interpreter takes
+    the direction from each instruction word's Rtl bit, the specification takes it as the parameter of `Spec.m`
+    (`ti.rtl` at the top, the body's direction under a lookaround) and matches a concatenation last-to-first there;
+    `toPat` reverses the stored children of a Concatenate as `gen.FromGoTree` does.  Proved for every node type of
+    the tiers 1–6 in either direction — One/Notone/Set, Multi, Ref (`forwardcharnext`, `runematch`, `refmatch` with the
+    bit set), all anchors, Concatenate, Alternate, Capture (start > end), general loops, Atomic, lookaround, the
+    conditionals — EXCEPT the single-character loops `Oneloop…Setloopatomic` with the Rtl bit (tier 8).
+    The conclusion speaks about `Spec.attempt se pat ti.rtl i` (`Compile.Agrees`). -/
+theorem compile_correct_T4d (ti : TreeInfo) (t : GoNode) (TPx : TP) (env : VM.Env) (se : Spec.Env) (pat : Pat) (i : Nat)
+    (hfrag : InFrag 7 TPx ti t = true) (hwf : treeWf ti t = true) (hpat : toPatRoot TPx ti.rtl t = some pat)
+    (hrel : EnvRel TPx (codeFromTree (mainCfg ti) t).2.sets env se) (hi : i ≤ se.n) (hlen : se.n < 2147483647)
+    (henv : env.ecma = false) :
+    ∃ s0 s n, VM.init (emit ti t) (i : Int) = .ok s0 ∧
+      (∀ fuel, n ≤ fuel → (VM.run (emit ti t) env fuel s0).1 = .done s) ∧ Agrees ti se pat i s :=
+  compile_correct_upto 7 (by decide) ti t TPx env se pat i hfrag hwf hpat hrel hi (by omega) (fun _ => hlen) (fun _ => henv)
 
 /-! ### non-vacuity (compiler correctness): four concrete trees inside the fragments, the hypotheses of the theorems
 met, and both sides of the conclusion evaluated -/
@@ -554,7 +595,7 @@ example : ∃ s0 s n, VM.init (emit (ccInfo 3) ccT1) (0 : Nat) = .ok s0 ∧
       have : (toPatRoot ccTP false ccT1).map (fun p => (Spec.attempt (ccSe [97, 98, 99, 100]) p false 0).isSome) = some true := by
         decide
       rw [h] at this
-      simpa using this⟩
+      simpa [ccInfo] using this⟩
   | none => absurd h (by decide)
 
 /-- `a*ab` on "aaab" (tier 2, not tier 1): the greedy loop gives one `a` back -/
@@ -613,7 +654,7 @@ example : ∃ s0 s n, VM.init (emit (ccInfo 2) ccT7) (0 : Nat) = .ok s0 ∧
       have : (toPatRoot ccTP false ccT7).map (fun p => (Spec.attempt (ccSe [97, 97, 98]) p false 0).isSome) = some true := by
         decide
       rw [h] at this
-      simpa using this⟩
+      simpa [ccInfo] using this⟩
   | none => absurd h (by decide)
 
 /-- `.*ab` as the parser leaves it: `Notoneloop(\n)*; UpdateBumpalong; Multi "ab"` (tier 5, not tier 4) on "xabab":
@@ -660,12 +701,44 @@ example : ∃ s0 s n, VM.init (emit (ccInfo 2) ccT9) (0 : Nat) = .ok s0 ∧
       have : (toPatRoot ccTP false ccT9).map (fun p => (Spec.attempt (ccSe [97, 97]) p false 0).isSome) = some true := by
         decide
       rw [h] at this
-      simpa using this⟩
+      simpa [ccInfo] using this⟩
   | none => absurd h (by decide)
 
-/-- trees outside the proved tiers: a lookbehind is tier 7; a case-insensitive backreference is in no tier -/
-example : InFrag 6 ccTP (ccInfo 1) (.capture 0 (-1) (.concat [.poslook (.char opOne true false 97), .char opOne false false 98])) = false ∧
-    InFrag 8 ccTP (ccInfo 2) (.capture 0 (-1) (.concat [.capture 1 (-1) (.char opOne false false 97), .ref false true 1])) = false := by
+/-- `(?<=ab)c` on "abc" (tier 7, not tier 6): matches at 2, not at 0 -/
+example : InFrag 6 ccTP (ccInfo 1) ccT12 = false ∧ InFrag 7 ccTP (ccInfo 1) ccT12 = true ∧ treeWf (ccInfo 1) ccT12 = true := by
+  decide
+example : ccRun (ccInfo 1) ccT12 (ccEnv [] (ccSe [97, 98, 99])) 2 200 = some (true, 3, [[2, 1]]) ∧
+    ccRun (ccInfo 1) ccT12 (ccEnv [] (ccSe [97, 98, 99])) 0 200 = some (false, 0, [[]]) := by decide
+example : (toPatRoot ccTP false ccT12).map (fun p => (Spec.attempt (ccSe [97, 98, 99]) p false 2, Spec.attempt (ccSe [97, 98, 99]) p false 0)) =
+    some (some { pos := 3, caps := [(0, 2, 1)] }, none) := by decide
+
+/-- `(?:ab|c)+d` compiled with the option RightToLeft (the parser stores the concatenation reversed: `d`, then the
+    loop) on "cabd", attempt at 4: `d`, then `ab`, then `c`, leftwards; the match is [0, 4) -/
+example : InFrag 7 ccTP (ccInfoR 1) ccT13 = true ∧ InFrag 6 ccTP (ccInfoR 1) ccT13 = false ∧ treeWf (ccInfoR 1) ccT13 = true := by
+  decide
+example : ccRun (ccInfoR 1) ccT13 (ccEnv [] (ccSe [99, 97, 98, 100])) 4 200 = some (true, 0, [[0, 4]]) := by decide
+example : (toPatRoot ccTP true ccT13).map (fun p => Spec.attempt (ccSe [99, 97, 98, 100]) p true 4) =
+    some (some { pos := 0, caps := [(0, 0, 4)] }) := by decide
+/-- the hypotheses of `compile_correct_T4d` hold for it, so its conclusion does -/
+example : ∃ s0 s n, VM.init (emit (ccInfoR 1) ccT13) (4 : Nat) = .ok s0 ∧
+    (∀ fuel, n ≤ fuel → (VM.run (emit (ccInfoR 1) ccT13) (ccEnv [] (ccSe [99, 97, 98, 100])) fuel s0).1 = .done s) ∧
+    VM.matched s = true :=
+  match h : toPatRoot ccTP true ccT13 with
+  | some pat =>
+    let ⟨s0, s, n, h1, h2, hag⟩ := compile_correct_T4d (ccInfoR 1) ccT13 ccTP _ (ccSe [99, 97, 98, 100]) pat 4 (by decide) (by decide) h
+      (ccRel _ _) (by decide) (by decide) rfl
+    ⟨s0, s, n, h1, h2, by
+      rw [hag.verdict]
+      have : (toPatRoot ccTP true ccT13).map (fun p => (Spec.attempt (ccSe [99, 97, 98, 100]) p true 4).isSome) = some true := by
+        decide
+      rw [h] at this
+      simpa [ccInfoR] using this⟩
+  | none => absurd h (by decide)
+
+/-- trees outside the proved tiers: a right-to-left single-character loop is tier 8; a case-insensitive backreference
+    is in no tier -/
+example : InFrag 7 ccTP (ccInfo 1) (.capture 0 (-1) (.concat [.poslook (.charloop opOneloop true false 97 1 maxInt32), .char opOne false false 98])) = false ∧
+    InFrag 9 ccTP (ccInfo 2) (.capture 0 (-1) (.concat [.capture 1 (-1) (.char opOne false false 97), .ref false true 1])) = false := by
   decide
 
 end compiler
